@@ -57,6 +57,12 @@ THEOREMS = [
     'Tbox.C17.C17_result_matches_doc_seq_over_par_leaves', 'Tbox.C17.C17_result_matches_doc_wrapper_over_par_leaves',
     'Tbox.C17.C17_result_matches_doc_composite_over_par_leaves', 'Tbox.C17.C17_par_leaves_batch_ok', 'Tbox.C17.C17_par_leaves_done_as',
     'Tbox.C17.goodB_par_leaves', 'Tbox.C17.goodB_of_good', 'Tbox.C17.runU_embedB', 'Tbox.C17.genB', 'Tbox.C17.result_matches_doc_runB', 'Tbox.C17.exSeqPar_run',
+    # round 12: stage (i) for EVERY serial parent kind (Parallel over leaves reset and run again below Loop / LoopIf / Repeat), one theorem over the decidable class
+    'Tbox.C17.C17_result_matches_doc_serial_with_par_leaves', 'Tbox.C17.C17_ser_par_class_extends', 'Tbox.C17.C17_ser_par_class_examples',
+    'Tbox.C17.C17_result_matches_doc_ifelse_over_par_leaves', 'Tbox.C17.C17_result_matches_doc_ifthen_over_par_leaves',
+    'Tbox.C17.C17_result_matches_doc_switch_over_par_leaves', 'Tbox.C17.C17_result_matches_doc_loop_over_par_leaves',
+    'Tbox.C17.C17_result_matches_doc_loopif_over_par_leaves', 'Tbox.C17.C17_result_matches_doc_repeat_over_par_leaves',
+    'Tbox.C17.genRB', 'Tbox.C17.goodB_all', 'Tbox.C17.good_twophaseB', 'Tbox.C17.good_ifThenB',
     # the inductive steps themselves
     'Tbox.C17.bstep_inv', 'Tbox.C17.step_wf', 'Tbox.C17.reachable_wf', 'Tbox.C17.seq_drive_aux',
 ]
@@ -88,7 +94,7 @@ ASSUMPTIONS = [
     'run ids do not wrap (2^63 deferred tasks)',
     'setTimeout / resetTimeout (ops settmo / clrtmo) are called from the loop thread between two callbacks (the fd callback of a pass), not from inside a callback of the tree',
 ]
-RULE = ('(round 11: timeout x block x reset x restart - 16 small trees with a timeout on the root / an inner composite / the blocking leaf itself, 4 scripts S; the leaf blocks after 0 / 100 ms, the block notification is queued / delivered / 100 ms old, the blocked tree gets nothing / pause() / resume() / pause resume pause, then reset()+start() in one call / across a pass / deferred / reset() twice / after stop() / in a late pass, then S again: op `cmpfresh` (now also outside free mode) compares the restarted run with the run of the freshly built tree under the same op script - end state of every node, calls of every function leaf, finish and block notifications of the root AND the instant of each finish notification relative to start(); lesson (g): ops settmo / clrtmo = Action::setTimeout / resetTimeout on any node at any pass - the SAME value while Running (the deadline must move), smaller / larger / raw values, while blocked / paused / Idle / ended, six times in a row, followed by reset()+start(); start() / reset() / reset() reset() / start() start() in the same fd callback as the end of a run (finish or block notification still queued), 1 and 2 passes later, deferred; op `share <kind>`: one leaf object offered to two parents of each of the 10 composite kinds) (round 10: re-entrant restart family - for every composite kind (Sequence Parallel IfElse IfThen Switch Loop LoopIf Repeat Wrapper Composite, as root, below a Sequence, below a Parallel) over composite children: the root is reset() and start()ed again from the final callback of every inner composite and from the body of every function leaf (first and second invocation), triggered by the natural end of the child, by a sibling ending its Parallel parent, by the timeout of the parent, by stop() from outside; op `mark` records the end state of the control-free run of the freshly built tree, op `cmpfresh` compares the end state of the restarted run with it: state and result of every node, number of calls of every function leaf, finish notifications of the root; plus 300 (thorough 3000) random trees x scripts x emits) (round 9: width families - sleeps / timeouts of B-1, B, B+1 ms for B = 2^15 2^16 2^31 2^32 2^42 and 0 driven to 1 ms before and across the deadline, with pause/resume on both sides; RepeatAction counts 0 1 2 3 2^16+1 2^31+1 2^32-1 2^32 2^32+1 2^63+1 2^64-1; 3*10^4 (thorough: 10^5) synchronous loop iterations with the exact call count; late passes `advdo` (clock moves between timer phase and control calls: negative remaining span); call-outs from function bodies on ancestors other than the root, free mode) (re-entrant control: one-shot scripts start/pause/resume/stop/reset attached to the final / finish / block callback of the root, exhaustively over small trees x scripts x one control call, and in random scripts) random action trees (depth <= 4, <= 40 nodes, all 10 composites and all their modes, leaves Function succ/fail(+case tag), Sleep, Dummy, '
+RULE = ('(round 12: the class of C17_result_matches_doc_serial_with_par_leaves on the real code - 27 serial parents (all nine kinds, nested) x 6 Parallel-over-leaves shapes at the leaf positions x 3 fixed + 1 random control-free schedules; below Loop / LoopIf / Repeat the ParallelAction is reset and run again; the driver compares the finish notification with the evaluator) (round 11: timeout x block x reset x restart - 16 small trees with a timeout on the root / an inner composite / the blocking leaf itself, 4 scripts S; the leaf blocks after 0 / 100 ms, the block notification is queued / delivered / 100 ms old, the blocked tree gets nothing / pause() / resume() / pause resume pause, then reset()+start() in one call / across a pass / deferred / reset() twice / after stop() / in a late pass, then S again: op `cmpfresh` (now also outside free mode) compares the restarted run with the run of the freshly built tree under the same op script - end state of every node, calls of every function leaf, finish and block notifications of the root AND the instant of each finish notification relative to start(); lesson (g): ops settmo / clrtmo = Action::setTimeout / resetTimeout on any node at any pass - the SAME value while Running (the deadline must move), smaller / larger / raw values, while blocked / paused / Idle / ended, six times in a row, followed by reset()+start(); start() / reset() / reset() reset() / start() start() in the same fd callback as the end of a run (finish or block notification still queued), 1 and 2 passes later, deferred; op `share <kind>`: one leaf object offered to two parents of each of the 10 composite kinds) (round 10: re-entrant restart family - for every composite kind (Sequence Parallel IfElse IfThen Switch Loop LoopIf Repeat Wrapper Composite, as root, below a Sequence, below a Parallel) over composite children: the root is reset() and start()ed again from the final callback of every inner composite and from the body of every function leaf (first and second invocation), triggered by the natural end of the child, by a sibling ending its Parallel parent, by the timeout of the parent, by stop() from outside; op `mark` records the end state of the control-free run of the freshly built tree, op `cmpfresh` compares the end state of the restarted run with it: state and result of every node, number of calls of every function leaf, finish notifications of the root; plus 300 (thorough 3000) random trees x scripts x emits) (round 9: width families - sleeps / timeouts of B-1, B, B+1 ms for B = 2^15 2^16 2^31 2^32 2^42 and 0 driven to 1 ms before and across the deadline, with pause/resume on both sides; RepeatAction counts 0 1 2 3 2^16+1 2^31+1 2^32-1 2^32 2^32+1 2^63+1 2^64-1; 3*10^4 (thorough: 10^5) synchronous loop iterations with the exact call count; late passes `advdo` (clock moves between timer phase and control calls: negative remaining span); call-outs from function bodies on ancestors other than the root, free mode) (re-entrant control: one-shot scripts start/pause/resume/stop/reset attached to the final / finish / block callback of the root, exhaustively over small trees x scripts x one control call, and in random scripts) random action trees (depth <= 4, <= 40 nodes, all 10 composites and all their modes, leaves Function succ/fail(+case tag), Sleep, Dummy, '
         'timeouts on any node) driven by op scripts: start, then passes / clock steps / control calls (single, paired, deferred with runNext) and '
         'emits on dummy leaves; plus exhaustive placement of one (thorough: two) control calls over all passes of small trees; plus Parallel trees with pause at pass i and resume / resume+pause / stop / reset start at every pass j >= i (tags par+pause par+resume par+stop par+reset par-paused), timeouts expiring in the same pass as a child finishes next to the schedules where they do not (tag tmo-race), control-free Parallel-over-leaves runs of 0-8 children; non-trivial = the root '
         'delivered a finish or block notification on a tree of >= 3 nodes, or a result was held back / replayed, or a timeout fired; distinct = distinct op text')
@@ -686,8 +692,36 @@ def gen_queued_fin_and_double_reset(quick):
                         yield ['tree ' + tree, 'do start', 'defer ' + em + c, 'pass', 'do emit:%d:s' % d, 'pass', 'adv 2', 'pass', 'pass']
 
 
+# ---- round 12: the class of C17_result_matches_doc_serial_with_par_leaves on the real code ------------------------------------
+SERPAR_PARS = ['( par:all Ff Z3 Fs:1 )', '( par:anys Ff Z2 Fs )', '( par:anyf Z1 Ff Z3 )', '( par:all )', '( par:all Z1 Z2 )', '( par:anys Fs Fs )']
+SERPAR_PARENTS = [
+    '( wr:i P )', '( wr:f P )', '( cmp P )', '( ife:tt P Q Fs )', '( ife:tt Ff Fs P )', '( ife:ft Ff P )', '( ife:tf P Q )', '( ift P Q Ff P )',
+    '( ift Ff P P Q )', '( sw:d P Fs Q )', '( sw:d Fs:0 P Q )', '( sw:n Fs:1 Fs P )', '( loop:us P )', '( loop:uf P )', '( loop:fe P )',
+    '( loop:uf ( seq:all P Ff ) )', '( lif:t Ff P )', '( lif:f P Q )', '( lif:t ( seq:all P Ff ) Q )', '( rep:2:nb P )', '( rep:3:bs P )',
+    '( rep:3:bf P )', '( rep:2:nb ( seq:all Fs P ) )', '( seq:all P ( rep:2:nb Q ) Fs )', '( loop:us ( ife:tt P ( rep:2:nb Q ) Ff ) )',
+    '( rep:2:nb ( ift P ( rep:2:bf Q ) ) )', '( seq:anyf ( wr:i P ) Q )',
+]
+SERPAR_SCHEDULES = [
+    ['pass'] * 3 + ['adv 1', 'pass'] * 8 + ['pass'] * 4,
+    ['adv 4'] * 9,
+    ['pass', 'adv 3', 'pass', 'pass', 'adv 3', 'adv 3', 'pass', 'pass', 'pass', 'adv 2', 'adv 1', 'pass', 'pass', 'adv 3', 'pass', 'pass'],
+]
+
+
+def gen_serpar_class(rng, quick):
+    """Parallel over Function / Sleep leaves at leaf positions below every serial parent kind, control-free, three schedules + a random
+    one: under Loop / LoopIf / Repeat the ParallelAction is reset and run again (the driver compares the result with the evaluator)"""
+    for i, parent in enumerate(SERPAR_PARENTS):
+        for j, par in enumerate(SERPAR_PARS):
+            tree = parent.replace('P', par).replace('Q', SERPAR_PARS[(i + j + 1) % len(SERPAR_PARS)])
+            for sch in SERPAR_SCHEDULES:
+                yield ['tree ' + tree, 'do start'] + sch
+            yield ['tree ' + tree, 'do start'] + [('pass' if rng.random() < 0.6 else 'adv %d' % rng.choice([1, 1, 2, 3, 4])) for _ in range(rng.choice([8, 16, 24]))]
+
+
 def gen(rng, tier):
     quick = tier == 'quick'
+    yield from gen_serpar_class(rng, quick)
     yield from gen_tmo_block_restart(quick)
     yield from gen_settmo(quick)
     yield from gen_queued_fin_and_double_reset(quick)
@@ -851,7 +885,7 @@ LEVEL_TEXT = ('Lean 4 theorems over an executable model of the action framework.
               'evaluates WF and the documented result (reference evaluator, all composites) on every visited state')
 LEVEL_NOTE = ('whole-tree "root result = documented meaning, exactly one finish notification, leaves called in the documented order" is PROVED through '
               'the deferred queue for trees of Sequence/IfElse/IfThen/Switch/Wrapper/Composite/Loop/LoopIf/Repeat(n>=1) over Function and Sleep leaves (C17_result_matches_doc_serial, '
-              'safety for every pass/clock sequence; C17_finishes_exactly_once, liveness: after cost(t)+1 big clock steps / passes in any fair schedule the trace IS the complete visit order + one finish, when the evaluator terminates; C17_loop_never_finishes: otherwise no finish notification ever; C17_skeleton_preserved for every op sequence), and for ParallelAction (all three modes, any number of children) over Function and Sleep leaves as the root (C17_result_matches_doc_par_leaves: all children called in child order inside start(), then none or exactly one finish (true,0) for every pass/clock sequence; C17_par_leaves_finishes_exactly_once: three big ops suffice, root Finished, nothing left Running/Pause; batch invariant PI kept by every runTask/fireOne in any order); round 9: C17_never_stuck_partial / C17_never_stuck_par_leaves (a Running root of the covered classes always waits for a queued task, an armed timer or a child under way, in every control-free run), C17_tree_inv_late (WF and its corollaries with late passes), C17_timeout_fires (any tree, any state: a firing timeout leaves the action Finished/fail with reason 1 queued and no descendant under way), C17_repeat_count_width / C17_sleep_deadline_width / C17_finish_time_fits (the ranges in which the Nat/Int values of the model are the C++ size_t / uint64 / int64-ns values, with counterexamples outside); round 10: visit(Parallel) = the children in child order (C17_result_matches_doc_par_leaves_visit), C17_batch_embed (one op of a parent is the op of its active child embedded, for ANY number of notifications in the batch, under BatchOk; AP is an instance); round 11: the timeout timer in every lifecycle state - C17_block_keeps_timeout (a blocked action is Pause with its timer still armed), C17_pause_stop_reset_disarm, C17_reset_disarms_every_timer (every reachable state of every tree: after reset() no timer of the tree is armed), C17_restart_deadline (a reset action started at `now` has the deadline now + timeout) with C17_stale_timer_survives_start_counterexample (enable() is a no-op on an armed timer) and the kernel-evaluated history C17_reset_of_blocked_action_restart; setTimeout / resetTimeout at any pass (TmoCtl.lean): C17_set_timeout_same_value_moves_deadline, C17_set_timeout_not_running, C17_set_timeout_keeps_inv_partial (guard: the target is the root or not Idle); ParallelAction over Function / Sleep leaves as a CHILD of Sequence / Wrapper / Composite at any positions, nestable (C17_result_matches_doc_seq_over_par_leaves, ..._wrapper_..., ..._composite_...; C17_par_leaves_batch_ok, C17_par_leaves_done_as); OPEN: order of the calls of a non-terminating loop, Parallel below IfElse / IfThen / Switch / Loop / LoopIf / Repeat (same substitution, not copied) or over composite children, liveness of parents over a Parallel child, TimersFrom (every armed deadline of a restarted tree = start + interval) at tree level, timeouts (C17_timeout_result_depends_on_pass_granularity: the result of a tree with a timeout depends on whether a loop pass runs between two deadlines, so the statement needs a schedule hypothesis) (all compared with the evaluator on '
+              'safety for every pass/clock sequence; C17_finishes_exactly_once, liveness: after cost(t)+1 big clock steps / passes in any fair schedule the trace IS the complete visit order + one finish, when the evaluator terminates; C17_loop_never_finishes: otherwise no finish notification ever; C17_skeleton_preserved for every op sequence), and for ParallelAction (all three modes, any number of children) over Function and Sleep leaves as the root (C17_result_matches_doc_par_leaves: all children called in child order inside start(), then none or exactly one finish (true,0) for every pass/clock sequence; C17_par_leaves_finishes_exactly_once: three big ops suffice, root Finished, nothing left Running/Pause; batch invariant PI kept by every runTask/fireOne in any order); round 9: C17_never_stuck_partial / C17_never_stuck_par_leaves (a Running root of the covered classes always waits for a queued task, an armed timer or a child under way, in every control-free run), C17_tree_inv_late (WF and its corollaries with late passes), C17_timeout_fires (any tree, any state: a firing timeout leaves the action Finished/fail with reason 1 queued and no descendant under way), C17_repeat_count_width / C17_sleep_deadline_width / C17_finish_time_fits (the ranges in which the Nat/Int values of the model are the C++ size_t / uint64 / int64-ns values, with counterexamples outside); round 10: visit(Parallel) = the children in child order (C17_result_matches_doc_par_leaves_visit), C17_batch_embed (one op of a parent is the op of its active child embedded, for ANY number of notifications in the batch, under BatchOk; AP is an instance); round 11: the timeout timer in every lifecycle state - C17_block_keeps_timeout (a blocked action is Pause with its timer still armed), C17_pause_stop_reset_disarm, C17_reset_disarms_every_timer (every reachable state of every tree: after reset() no timer of the tree is armed), C17_restart_deadline (a reset action started at `now` has the deadline now + timeout) with C17_stale_timer_survives_start_counterexample (enable() is a no-op on an armed timer) and the kernel-evaluated history C17_reset_of_blocked_action_restart; setTimeout / resetTimeout at any pass (TmoCtl.lean): C17_set_timeout_same_value_moves_deadline, C17_set_timeout_not_running, C17_set_timeout_keeps_inv_partial (guard: the target is the root or not Idle); ParallelAction over Function / Sleep leaves as a CHILD of Sequence / Wrapper / Composite at any positions, nestable (C17_result_matches_doc_seq_over_par_leaves, ..._wrapper_..., ..._composite_...; C17_par_leaves_batch_ok, C17_par_leaves_done_as); round 12: the same below EVERY serial parent kind (..._ifelse_/_ifthen_/_switch_/_loop_/_loopif_/_repeat_over_par_leaves; below Loop / LoopIf / Repeat the ParallelAction is reset and run again) and ONE theorem over the decidable class SerParOk = the serial class with a Parallel-over-leaves node admitted at any leaf position, any depth (C17_result_matches_doc_serial_with_par_leaves: trace is a prefix of the documented visit order, or the complete order + exactly one finish with the documented result, for every pass/clock schedule; C17_ser_par_class_extends, kernel-evaluated C17_ser_par_class_examples); OPEN: order of the calls of a non-terminating loop, Parallel over composite children, liveness of parents over a Parallel child, TimersFrom (every armed deadline of a restarted tree = start + interval) at tree level, timeouts (C17_timeout_result_depends_on_pass_granularity: the result of a tree with a timeout depends on whether a loop pass runs between two deadlines, so the statement needs a schedule hypothesis) (all compared with the evaluator on '
               'every control-free generated run for all composites); trace equivalence '
               'of a reset tree with a fresh one in general (proved: Clean + WF after reset, and C17_rerun_after_reset: covered class, second run without control calls, after any history); ActionExecutor: one-at-a-time, heads-only, highest-priority-first and callbacks-once proved; trusted: Lean kernel, '
               'hand-written model, harness, generator coverage (measured)')
